@@ -57,6 +57,9 @@ class World:
         # slots whose job directory disappeared through ANOTHER handle (removed / re-keyed away): per-handle fields are
         # out of date; the documented way back is the handle's own init() or remove(), nothing else is offered
         self.stale = set()
+        # revived handles are used for document / file operations only: what a state point edit through a handle does whose
+        # state point object was shared with objects that no longer exist is not something the property speaks about
+        self.limited = set()
 
     # ------------------------------------------------------------------ helpers
     def sp(self, i):
@@ -76,6 +79,7 @@ class World:
     def _drop_slot(self, slot):
         self.slots.pop(slot, None)
         self.stale.discard(slot)
+        self.limited.discard(slot)
         g = self.group_of.pop(slot, None)
         if g is not None and g not in self.group_of.values():
             self.groups.pop(g, None)
@@ -135,13 +139,13 @@ class World:
                 if alphabet.get("files2", True):
                     ops += [("write", s, "sub/f2")]
             ops += [("clear", s), ("reset", s), ("remove", s)]
-            if alphabet.get("rekey", True):
+            if alphabet.get("rekey", True) and s not in self.limited:
                 ops += [("sp_set", s, "b"), ("sp_toggle", s), ("sp_del", s, "b"), ("sp_nested", s),
                         ("sp_assign", s, 1 if self.g(s)["sp"].get("a") == 1 else 0),
                         ("update_sp", s, "b", False), ("update_sp", s, "a5", False), ("update_sp", s, "a5", True)]
                 if alphabet.get("assign_typed", True):
                     ops.append(("sp_assign_typed", s))
-            if alphabet.get("move", True) and self.g(s)["proj"] == "P":
+            if alphabet.get("move", True) and self.g(s)["proj"] == "P" and s not in self.limited:
                 ops += [("move", s), ("clone", s)]
             if alphabet.get("reopen", True) and self.model_job(s) is not None:
                 ops.append(("reopen", s))
@@ -241,6 +245,8 @@ class World:
         if name == "init":
             run(job.init)
             self._ensure_model_job(slot)
+            if slot in self.stale:
+                self.limited.add(slot)
             self.stale.discard(slot)
         elif name == "doc_set":
             def f():
@@ -298,6 +304,8 @@ class World:
             # now, shallow copies included: only re-keys are promised to propagate.  They are not offered any more.
             self._invalidate_others(grp, proj, jid, revivable=True)
             self._drop_group(grp, keep=slot, revivable=True)
+            if slot in self.stale:
+                self.limited.add(slot)
             self.stale.discard(slot)
             if slot in self.by_id and _unloaded(job):
                 # opened by id and never asked for its state point: with the job gone nobody can tell it any more
@@ -614,7 +622,7 @@ class World:
             v = vars(j)
             spo = v.get("_statepoint")
             d = {
-                "slot": slot, "stale": slot in self.stale, "group": self.group_of[slot], "model_sp": canon.canon_json(self.g(slot)["sp"]),
+                "slot": slot, "stale": slot in self.stale, "limited": slot in self.limited, "group": self.group_of[slot], "model_sp": canon.canon_json(self.g(slot)["sp"]),
                 "model_proj": self.g(slot)["proj"],
                 "id": v.get("_id"), "req_init": v.get("_statepoint_requires_init"),
                 "cached": None if v.get("_cached_statepoint") is None else canon.canon_json(canon.plain(v["_cached_statepoint"])),
